@@ -296,6 +296,76 @@ def spurious (s : State) (t : Tid) : Option State :=
 /-- the configuration extracted from the current source -/
 abbrev cfg : Cfg := PV.Generated.RWLock.cfg
 
+/-! ## failing primitives (scripted results)
+
+`p_mutex_lock`, `p_mutex_unlock`, `p_cond_variable_wait`, `p_cond_variable_signal` and
+`p_cond_variable_broadcast` return a `pboolean`; every call site in `prwlock-general.c` has a
+failure branch.  `failStep s t` = "thread `t` performs the primitive call it is suspended at and
+that call returns FALSE".  Contract assumed for a FAILED primitive call: it has no effect
+(a failed `p_mutex_lock` does not acquire, a failed `p_cond_variable_wait` returns at once and the
+caller still owns the mutex, a failed signal / broadcast wakes nobody, a failed `p_mutex_unlock`
+leaves the mutex owned by the caller — for ever: nobody else can release it).
+
+What the C code does on these branches (transliterated):
+* `p_mutex_lock` FALSE (first call of all six functions): `P_ERROR; return FALSE;` — nothing touched;
+* `p_cond_variable_wait` FALSE (reader_lock / writer_lock): `break;` out of the loop, `waiting--`,
+  `active` NOT bumped (`if (wait_ok == TRUE)`), final `p_mutex_unlock`, `return wait_ok` (FALSE);
+* signal / broadcast FALSE (reader_unlock / writer_unlock): `active` is already decremented,
+  `signal_ok = FALSE`, final `p_mutex_unlock`, `return signal_ok` (FALSE);
+* final `p_mutex_unlock` FALSE: `return FALSE` WHATEVER was done before (in particular after
+  `active` was bumped by a granted acquire) — except on the zero-reader-count path of
+  `p_rwlock_reader_unlock` and the not-grantable paths of the two trylocks, which ignore the result
+  of the unlock (`return TRUE` resp. `return FALSE`).
+
+Client convention: a thread whose unlock CALL failed at its first `p_mutex_lock` (it still holds)
+stops; a thread whose call met a failed `p_mutex_unlock` stops too (it owns the internal mutex for
+ever: its next `p_rwlock_*` call would self-deadlock on it). -/
+
+/-- the thread's current call returns `ret` and the thread makes no further call -/
+def stopThread (th : Thread) (op : Op) (ret : Bool) : Thread :=
+  { th with pc := .done, prog := [], last := some (op, ret) }
+
+/-- thread `t` performs the primitive call it is suspended at and the call FAILS.
+    `zero`: the thread is on the zero-reader-count path of `p_rwlock_reader_unlock` (the pc
+    `.atUnlock .runlock true` does not tell; the driver tracks it, the theorems hold for both values) -/
+def failStep (s : State) (t : Tid) (zero : Bool := false) : Option State :=
+  match s.threads[t]? with
+  | none => none
+  | some th =>
+    match th.pc with
+    | .lock op =>
+      some { s with threads := s.threads.set t (if op.isAcq then finish th op false else stopThread th op false) }
+    | .atWait .rlock _ =>
+      some { s with waiting := SET_READERS s.waiting (READER_COUNT s.waiting - 1),
+                    threads := s.threads.set t { th with pc := .atUnlock .rlock false } }
+    | .atWait .wlock _ =>
+      some { s with waiting := SET_WRITERS s.waiting (WRITER_COUNT s.waiting - 1),
+                    threads := s.threads.set t { th with pc := .atUnlock .wlock false } }
+    | .atSignal op _ | .atBcast op _ =>
+      some { s with threads := s.threads.set t { th with pc := .atUnlock op false } }
+    | .atUnlock op _ =>
+      some { s with threads := s.threads.set t (stopThread th op (zero && op == .runlock)) }
+    | _ => none
+
+/-! ## `p_rwlock_new` / `p_rwlock_free` of the general model: which parts are released
+
+`p_rwlock_new` allocates the structure, the mutex, `read_cv`, `write_cv` in this order; when
+allocation number `k` (0-based) fails it releases what it has (in reverse order) and returns NULL. -/
+
+structure Released where
+  structs : Nat := 0     -- `p_free (ret)`
+  mutexes : Nat := 0     -- `p_mutex_free`
+  condvars : Nat := 0    -- `p_cond_variable_free`
+  deriving DecidableEq, Repr
+
+/-- allocation `k` of `p_rwlock_new` fails (`k` = 0 struct, 1 mutex, 2 read_cv, 3 write_cv): the
+    call returns NULL having released exactly what was allocated before -/
+def newFail (k : Nat) : Released :=
+  { structs := if k ≥ 1 then 1 else 0, mutexes := if k ≥ 2 then 1 else 0, condvars := if k ≥ 3 then 1 else 0 }
+
+/-- `p_rwlock_free (lock)` on a live lock (whatever the counters say: it only warns) -/
+def freeAll : Released := { structs := 1, mutexes := 1, condvars := 2 }
+
 /-! ## `prwlock-posix.c`: thin mapping onto `pthread_rwlock_*`
 
 The pthread rwlock is an abstract machine (trusted contract): its calls return an `int` code.
@@ -322,6 +392,10 @@ def resultNull (_op : Op) : Bool := false
 
 /-- `p_rwlock_new`: NULL iff allocation failed or `pthread_rwlock_init` returned non-zero -/
 def newOk (allocOk : Bool) (initCode : Int) : Bool := allocOk && initCode == 0
+
+/-- `p_rwlock_free (lock)`, non-NULL: `pthread_rwlock_destroy` is called; a failure is only logged
+    (`P_ERROR`), the object is released in both cases: (destroy called, object released) -/
+def freeResult (_destroyCode : Int) : Bool × Bool := (true, true)
 
 /-- abstract pthread rwlock: who holds it (trusted machine) -/
 structure PState where
